@@ -41,13 +41,72 @@ POW = z3.Function('pow', R, I, R)
 SUMSEQ = z3.Function('sum_seq', z3.SeqSort(R), R)     # sum of a sequence of reals (uninterpreted; contracts state what they need)
 
 
-_mj = itertools.count()
+_MEM = {}
 
 
 def member(seq_t, x):
-    """x in seq, stated with an explicit index (z3's seq theory does not relate Contains and Nth by itself)."""
-    j = z3.Int(f'mj!{next(_mj)}')
-    return z3.Exists([j], z3.And(0 <= j, j < z3.Length(seq_t), seq_t[j] == x))
+    """x in seq: an uninterpreted predicate mem_S(seq, x) tied to indices by two axioms (see mem_axioms): z3's sequence theory does
+    not relate Contains and Nth by itself, and a bare Exists gives quantified contracts no usable trigger."""
+    srt = seq_t.sort()
+    key = str(srt)
+    if key not in _MEM:
+        es = srt.basis()
+        _MEM[key] = (z3.Function(f'mem_{len(_MEM)}', srt, es, B), z3.Function(f'wit_{len(_MEM)}', srt, es, I), srt, es)
+    if not z3.is_expr(x):
+        x = z3.RealVal(x) if _MEM[key][3] == R else z3.IntVal(x)
+    return _MEM[key][0](seq_t, x)
+
+
+def mem_axioms():
+    """quantified form of the two membership axioms (kept for quantified contract formulas; ground terms are instantiated by
+    mem_instances because E-matching on sequence terms is unreliable)"""
+    out = []
+    for mem, wit, srt, es in _MEM.values():
+        s_, x_ = z3.Const('s!m', srt), z3.Const('x!m', es)
+        out.append(z3.ForAll([s_, x_], z3.Implies(mem(s_, x_), z3.And(0 <= wit(s_, x_), wit(s_, x_) < z3.Length(s_), s_[wit(s_, x_)] == x_)),
+                             patterns=[mem(s_, x_)]))
+    return out
+
+
+def mem_instances(formulas, rounds=2):
+    """ground instances of   0 <= j < len(s) => mem(s, s[j])   for every term s[j] occurring in the formulas, and of
+    mem(s, x) => s[wit(s,x)] == x  for every ground mem term (sound: instances of true axioms)."""
+    by_sort = {str(v[2]): v for v in _MEM.values()}
+    seen, out = set(), []
+    todo = list(formulas)
+    for _ in range(rounds):
+        nth, mems = [], []
+
+        def walk(t):
+            if not z3.is_app(t) or t.get_id() in seen: return
+            seen.add(t.get_id())
+            if z3.is_quantifier(t): walk(t.body()); return
+            k = t.decl().kind()
+            if k == z3.Z3_OP_SEQ_NTH and str(t.arg(0).sort()) in by_sort: nth.append(t)
+            if k == z3.Z3_OP_UNINTERPRETED and t.num_args() == 2 and str(t.arg(0).sort()) in by_sort and t.decl().eq(by_sort[str(t.arg(0).sort())][0]): mems.append(t)
+            for ch in t.children(): walk(ch)
+        for f in todo:
+            if z3.is_quantifier(f): walk(f.body())
+            else: walk(f)
+        new = []
+        for t in nth:
+            s_, j_ = t.arg(0), t.arg(1)
+            if any(z3.is_var(x) for x in (s_, j_)) or _has_var(t): continue
+            mem = by_sort[str(s_.sort())][0]
+            new.append(z3.Implies(z3.And(0 <= j_, j_ < z3.Length(s_)), mem(s_, t)))
+        for t in mems:
+            if _has_var(t): continue
+            s_, x_ = t.arg(0), t.arg(1)
+            wit = by_sort[str(s_.sort())][1]
+            new.append(z3.Implies(t, z3.And(0 <= wit(s_, x_), wit(s_, x_) < z3.Length(s_), s_[wit(s_, x_)] == x_)))
+        out += new; todo = new
+        if not new: break
+    return out
+
+
+def _has_var(t):
+    if z3.is_var(t): return True
+    return any(_has_var(c) for c in t.children())
 
 
 class OutOfReach(Exception):
@@ -287,6 +346,11 @@ class Exec:
         if k == 'ref': return V('ref', self.fresh(REF, name), **v.x)
         if k == 'tuple': return V('tuple', tuple(self.fresh_like(i, name) for i in v.t))
         if k == 'none': return v
+        if k == 'obj':
+            fields = self.c.get('obj_havoc_fields')
+            if not fields: raise OutOfReach('loop-carried heap object without obj_havoc_fields in the contract')
+            cur = self._cur_state.heap[v.t]
+            return new_obj(self._cur_state, v.get('cls'), **{f: self.fresh_like(cur[f], f) for f in fields})
         raise OutOfReach(f'cannot havoc a value of kind {k}')
 
     def need(self, st, goal, name, kind='check', line=None):
@@ -555,9 +619,12 @@ class Exec:
         items = [self.ev(x, st) for x in e.elts]
         if not items:
             return V('seq', None, ek=None, empty=True)
+        if any(i.kind == 'obj' for i in items):
+            return V('pylist', tuple(items))
         ek = self.join_desc([desc_of(i) for i in items])
         t = z3.Unit(unwrap(items[0], ek))
         for i in items[1:]: t = z3.Concat(t, z3.Unit(unwrap(i, ek)))
+        for i in items: self.axioms.append(member(t, unwrap(i, ek)))       # true facts about the literal
         return V('seq', t, ek=ek)
 
     def e_Set(self, e, st):
@@ -734,6 +801,16 @@ class Exec:
         if recv.kind in ('real', 'num', 'int') and name in IDENTITY_METHODS:
             return recv
         if recv.kind == 'opaque': return V('opaque')
+        if recv.kind == 'set' and name == 'pop' and not args and isinstance(e.func.value, ast.Name):
+            # arbitrary element; the name is rebound to the remaining set (elements distinct: sets)
+            ek = recv.x['ek']
+            el = self.fresh(ek.sort(), 'popped'); rest = self.fresh(recv.t.sort(), 'rest'); y = self.fresh(ek.sort(), 'y')
+            self.need(st, z3.Length(recv.t) > 0, f'pop-from-nonempty@{e.lineno}', 'safety', e.lineno)
+            # facts about the popped element constrain the receiver on THIS path only: path condition, not global axioms
+            st.pc += [member(recv.t, el), z3.Length(rest) == z3.Length(recv.t) - 1,
+                      z3.ForAll([y], member(rest, y) == z3.And(member(recv.t, y), y != el), patterns=[member(rest, y)])]
+            st.vars[e.func.value.id] = V('set', rest, **recv.x)
+            return ek.wrap(el)
         if recv.kind == 'map':
             if name == 'get':
                 arr, dom = recv.t
@@ -857,8 +934,8 @@ class Exec:
         return self.fresh(s, 'dflt')
 
     def s_Assign(self, n, st):
-        v = self.ev(n.value, st)
         st = st.fork()
+        v = self.ev(n.value, st)
         for t in n.targets: self.store(t, v, st)
         return [st]
 
@@ -880,6 +957,7 @@ class Exec:
         return out
 
     def s_Return(self, n, st):
+        st = st.fork()
         v = self.ev(n.value, st) if n.value else VNone()
         if v.kind == 'comp': v = self.materialise(st, v)
         if not self.dry: self.returns.append((st, v, n.lineno))
@@ -982,6 +1060,7 @@ class Exec:
 
     def havoc(self, st, names, attrs, kinds):
         h = st.fork()
+        self._cur_state = h
         for m in sorted(names):
             if m in st.vars:
                 v = st.vars[m]
@@ -1023,11 +1102,16 @@ class Exec:
             if not changed: break
         return kinds
 
-    def inv(self, k, st, extra=None):
+    def inv(self, k, st, assume=False):
+        """loop invariant k at state st. A contract may return {'prove': F, 'assume': L}: L is a lemma instance (an assumed
+        mathematical fact about the loop's ghost functions, listed in the evidence); it is only added where the invariant is ASSUMED."""
         invs = self.c.get('invariants', {})
         if k not in invs: raise OutOfReach(f'loop {k} has no invariant in the contract')
-        r = invs[k](st) if extra is None else invs[k](st, **extra)
+        r = invs[k](st)
+        lem = None
+        if isinstance(r, dict): r, lem = r['prove'], r.get('assume')
         if isinstance(r, (list, tuple)): r = z3.And(*r) if r else z3.BoolVal(True)
+        if assume and lem is not None: r = z3.And(r, lem)
         return r
 
     def run_body(self, n, hb, k, after):
@@ -1114,7 +1198,7 @@ class Exec:
             i = self.fresh(I, 'gi')
             h.vars[gi] = VI(i)
             h.pc += [0 <= i, i < L]
-            h.pc.append(self.inv(k, h))
+            h.pc.append(self.inv(k, h, assume=True))
             outs = []
             if it.kind == 'comp':
                 g = z3.simplify(elem_guard(i, h))
@@ -1139,7 +1223,7 @@ class Exec:
         # exit
         e = self.havoc(st, names, attrs, kinds)
         e.vars[gi] = VI(L)
-        e.pc.append(self.inv(k, e))
+        e.pc.append(self.inv(k, e, assume=True))
         return [e]
 
     def s_While(self, n, st):
@@ -1150,7 +1234,7 @@ class Exec:
         breaks = []
 
         def body_runner(h):
-            h.pc.append(self.inv(k, h))
+            h.pc.append(self.inv(k, h, assume=True))
             c = truthy(self.ev(n.test, h))
             hb = h.fork(c)
             dec = self.c.get('decreases', {}).get(k)
@@ -1171,7 +1255,7 @@ class Exec:
         breaks.clear()
         body_runner(self.havoc(st, names, attrs, kinds))
         e = self.havoc(st, names, attrs, kinds)
-        e.pc.append(self.inv(k, e))
+        e.pc.append(self.inv(k, e, assume=True))
         e.pc.append(z3.Not(truthy(self.ev(n.test, e))))
         return [e] + breaks
 
